@@ -33,6 +33,9 @@ def gen(ctx):
     cases, expect = [], []
     versions = [b"0.23.5", b"0.21.11", b"x", b" ", b"0", "ä".encode(), "0.24 日本".encode(), b"1" * 5000, b"0.23.5 ", b"OK MPD 1", b"\x00", b"a\tb",
                 b"\xff", b"\xc3", b"0.2\xe4", b""]
+    # whitespace and control characters are part of the version: nothing is trimmed (a CRLF-minded tidy-up would)
+    versions += [b"0.23.5\r", b"\r", b"0.\r23", b"a\r\r", b"\r0.23.5", b"0.23.5\t", b" 0.23.5", b"0.23.5\x0b", b"0.23.5\x0c", b"0.23.5\xc2\xa0",
+                 b"0.23.5\xe2\x80\xa8", b"\xef\xbb\xbf0.23.5", b"0.23.5\x1f", b"0.23.5\x7f", b"0.23.5\x00"]
     streams = []
     versions += [b"v" + ch.encode() * n for ch in ("é", "音", "\U0001F600") for n in (1364, 1365, 2000, 2047, 2048)]
     for v in versions:
